@@ -227,9 +227,15 @@ async fn run_case(c: &Case) -> Vec<(String, String)> {
                 _ => { body.push(0); }
             }
             let mut bytes = rc::default_greeting();
-            bytes.push(0x04);
-            bytes.push(body.len() as u8);
-            bytes.extend(body);
+            if c.offset >= 8 {
+                // variants 8 / 9: a perfectly well-formed READY that must be refused for its VALUES - Socket-Type PAIR
+                // (8) or FOO (9) - and that announces the identity of the established client G1
+                bytes.extend(rc::encode_command(b"READY", &[(b"Socket-Type".to_vec(), if c.offset == 8 { b"PAIR".to_vec() } else { b"FOO".to_vec() }), (b"Identity".to_vec(), b"G1".to_vec())]));
+            } else {
+                bytes.push(0x04);
+                bytes.push(body.len() as u8);
+                bytes.extend(body);
+            }
             match RawStream::connect(&ep).await {
                 Ok(mut s) => {
                     let _ = s.write_all(&bytes).await;
@@ -412,7 +418,7 @@ fn all_cases(tier: Tier) -> Vec<Case> {
     // a complete but malformed READY, then close: 8 variants of inconsistent inner lengths (variant number in `offset`)
     for ty in ALL_TYPES {
         for tr in [Tr::Tcp4, Tr::Ipc] {
-            for variant in 0..8usize {
+            for variant in 0..10usize {
                 v.push(Case { ty, tr, offset: variant, behaviour: 4, bad_clients: 1, extra_goods: 0 });
             }
         }
@@ -580,7 +586,7 @@ pub fn run(tier: Tier, replay: Option<String>) -> i32 {
     ck.cov("evaluations", done);
     ck.cov("distinct_nontrivial", cases.iter().filter(|c| c.offset > 0 || c.behaviour != 0).count() as u64);
     ck.cov("exhaustive", skipped == 0);
-    ck.cov("rule", format!("for each of the 9 bound socket types over {}: a raw client that sends the first k bytes of a valid greeting+READY for EVERY k in 0..N-1 and then {{goes silent, closes, switches to 96 bytes of garbage}} (and, at the structurally interesting offsets over TCP, aborts with a reset from a synchronous client - on a current-thread runtime, where the reset is certain to precede the listener's look at the connection, and on a multi-thread one), one such client (three at every 16th offset{}), with a well-behaved raw client connecting before, while and after; plus a scale family (PULL/PUB/ROUTER/REP over TCP v4 and IPC: 1 / 8 / 64 (thorough 256) silent clients stalled at offsets 0, 10, 64, 70, then 20 (thorough 100) further well-behaved clients one after the other, each of which must complete its handshake; and 200 (thorough 600) clients that close or switch to garbage at offsets 10 / 70 followed by well-behaved ones - not exhaustive in the counts): {} cases, all distinct; non-trivial = the bad client sent at least one byte or misbehaved actively. Oracle (monotone conditions, {} s horizon): the client connecting meanwhile completes its handshake and a message exchange that proves its connection works in the direction(s) the type supports (for round-robin senders: one send per well-behaved client reaches every one of them, so a half-handshaken connection in the rotation is detected); the connection established before still works; the monitor reports AcceptFailed for every client that closes mid-handshake or after a complete but malformed READY (8 variants of inconsistent inner lengths; garbage may merely stall a handshake, which is not a failure) and never more Accepted events than completed handshakes; a client connecting afterwards works too. Monitor timing: in two further behaviours the application REPLACES its monitor while the bad clients are stalled in handshakes already under way (each has received the library's greeting), and only then do they close / send garbage: the new monitor must get the AcceptFailed reports and the later Accepted ones.", match tier { Tier::Quick => "TCP v4 (TCP v6 and IPC at 8 structurally interesting offsets)", Tier::Thorough => "TCP v4, TCP v6 and IPC" }, if tier == Tier::Thorough { " — thorough: at every offset" } else { "" }, cases.len(), e4::HORIZON.as_secs()));
+    ck.cov("rule", format!("for each of the 9 bound socket types over {}: a raw client that sends the first k bytes of a valid greeting+READY for EVERY k in 0..N-1 and then {{goes silent, closes, switches to 96 bytes of garbage}} (and, at the structurally interesting offsets over TCP, aborts with a reset from a synchronous client - on a current-thread runtime, where the reset is certain to precede the listener's look at the connection, and on a multi-thread one), one such client (three at every 16th offset{}), with a well-behaved raw client connecting before, while and after; plus a scale family (PULL/PUB/ROUTER/REP over TCP v4 and IPC: 1 / 8 / 64 (thorough 256) silent clients stalled at offsets 0, 10, 64, 70, then 20 (thorough 100) further well-behaved clients one after the other, each of which must complete its handshake; and 200 (thorough 600) clients that close or switch to garbage at offsets 10 / 70 followed by well-behaved ones - not exhaustive in the counts): {} cases, all distinct; non-trivial = the bad client sent at least one byte or misbehaved actively. Oracle (monotone conditions, {} s horizon): the client connecting meanwhile completes its handshake and a message exchange that proves its connection works in the direction(s) the type supports (for round-robin senders: one send per well-behaved client reaches every one of them, so a half-handshaken connection in the rotation is detected); the connection established before still works; the monitor reports AcceptFailed for every client that closes mid-handshake or after a complete but malformed READY (8 variants of inconsistent inner lengths, and 2 well-formed READYs refused for their values - Socket-Type PAIR / FOO - that announce the identity of the established client; garbage may merely stall a handshake, which is not a failure) and never more Accepted events than completed handshakes; a client connecting afterwards works too. Monitor timing: in two further behaviours the application REPLACES its monitor while the bad clients are stalled in handshakes already under way (each has received the library's greeting), and only then do they close / send garbage: the new monitor must get the AcceptFailed reports and the later Accepted ones.", match tier { Tier::Quick => "TCP v4 (TCP v6 and IPC at 8 structurally interesting offsets)", Tier::Thorough => "TCP v4, TCP v6 and IPC" }, if tier == Tier::Thorough { " — thorough: at every offset" } else { "" }, cases.len(), e4::HORIZON.as_secs()));
     ck.sample(case_json(&cases[cases.len() / 2]));
     ck.sample(case_json(&cases[7]));
     ck.assume("OS schedules are not enumerated; 'never completes' is observed as 'not within the 5 s horizon' (correct code needs milliseconds)");
